@@ -140,6 +140,9 @@ pub struct PortActionIterator<'a> {
     internal: Fuse<<ArrayVec<PortAction<'a>, MAX_ACTIONS> as IntoIterator>::IntoIter>,
     tlvs: TlvSetIterator<'a>,
     sender_identity: PortIdentity,
+    // TLVs with a larger wire size can never be appended to an announce and are not
+    // offered for forwarding
+    max_forward_tlv_size: usize,
 }
 
 impl<'a> PortActionIterator<'a> {
@@ -152,6 +155,7 @@ impl<'a> PortActionIterator<'a> {
             internal: ArrayVec::new().into_iter().fuse(),
             tlvs: TlvSetIterator::empty(),
             sender_identity: Default::default(),
+            max_forward_tlv_size: usize::MAX,
         }
     }
     pub(super) fn from(list: ArrayVec<PortAction<'a>, MAX_ACTIONS>) -> Self {
@@ -159,6 +163,7 @@ impl<'a> PortActionIterator<'a> {
             internal: list.into_iter().fuse(),
             tlvs: TlvSetIterator::empty(),
             sender_identity: Default::default(),
+            max_forward_tlv_size: usize::MAX,
         }
     }
     pub(super) fn from_filter(update: FilterUpdate) -> Self {
@@ -172,11 +177,13 @@ impl<'a> PortActionIterator<'a> {
         self,
         tlvs: TlvSetIterator<'a>,
         sender_identity: PortIdentity,
+        max_forward_tlv_size: usize,
     ) -> Self {
         Self {
             internal: self.internal,
             tlvs,
             sender_identity,
+            max_forward_tlv_size,
         }
     }
 }
@@ -187,7 +194,7 @@ impl<'a> Iterator for PortActionIterator<'a> {
     fn next(&mut self) -> Option<Self::Item> {
         self.internal.next().or_else(|| loop {
             let tlv = self.tlvs.next()?;
-            if tlv.tlv_type.announce_propagate() {
+            if tlv.tlv_type.announce_propagate() && tlv.wire_size() <= self.max_forward_tlv_size {
                 return Some(PortAction::ForwardTLV {
                     tlv: ForwardedTLV {
                         tlv,
